@@ -227,6 +227,16 @@ def materialise(thorough):
         st.append(('special|' + repr(s[-12:]), s, [None]))
     ITEMS['strings'] = st
     ITEMS['configs'] = config_docs()
+    # every sequence of envelope / body segments up to a depth after a well-formed ISA (the arrangements that single
+    # mutations of a well-formed document cannot reach: several missing headers at once, trailers before headers, ...)
+    env = []
+    segs = {'ISA': ref.isa(ctl='000000002')[:-1], 'GS': 'GS*HC*S*R*20040102*1200*1*X*004010X098A1', 'ST': 'ST*837*0001', 'X': 'BHT*0019*00*A*20040102*1200*CH',
+            'SE': 'SE*2*0001', 'GE': 'GE*1*1', 'IEA': 'IEA*1*000000001', 'HL': 'HL*1**20*1'}
+    names = ['ISA', 'GS', 'ST', 'X', 'SE', 'GE', 'IEA'] + (['HL'] if thorough else [])
+    for n in range(0, (5 if thorough else 4) + 1):
+        for tup in itertools.product(names, repeat=n):
+            env.append(('envseq|' + '-'.join(tup), ref.isa() + '\n' + ''.join(segs[k] + '~\n' for k in tup), ['ST_LOOP']))
+    ITEMS['envseq'] = env
     if thorough:
         m2 = []
         mins = [b for b in bases if b[0].startswith('min:')]
@@ -261,7 +271,7 @@ def work(shard):
         lids = [None] + [l for l in loops if l]
         P.n += 1
         v = run_text(text, sinksets, charsets, lids)
-        P.out('%s|%s' % (family, lab.split('|')[1].split('@')[0].split(':')[0][:18] if '|' in lab else lab[:14]))
+        P.out('%s|%s' % (family, (lab.split('|')[1].split('@')[0].split(':')[0][:18] if family != 'envseq' else str(lab.count('-'))) if '|' in lab else lab[:14]))
         for k, m in v:
             P.bad(k, {'text': text, 'sinksets': [list(s) for s in sinksets], 'charsets': charsets, 'loop_ids': lids, 'label': lab}, '%s: %s' % (lab, m))
         if not v and P.n % 997 == 1:
@@ -284,6 +294,7 @@ def run(R):
                 'char': 'every prefix and every single-character substitution by {seg, ele, sub, SP, LF, A} of 2 small documents',
                 'strings': 'all strings <=4 over {I,S,A,*,~,SP,LF}, alone and after a well-formed ISA; 11 special headers',
                 'configs': 'every base document x 8 sink subsets x charset {B,E}',
+                'envseq': 'every sequence of length <=%d over {ISA,GS,ST,body,SE,GE,IEA%s} after a well-formed ISA' % (5 if R.thorough else 4, ',HL' if R.thorough else ''),
                 'mut2': 'every pair of mutations of the minimal documents (second applied to the first result)' if R.thorough else 'not run in quick'}
     R.assumptions = ['documented refusals: X12Error iff the reference finds an ISA that is not well formed; EngineError "Map not found" iff the (ISA12, GS08, GS01[, BHT02]) key is absent from my reading of maps.xml',
                      'the context reader is driven with loop id None and one loop id occurring in the document']
